@@ -29,6 +29,26 @@ CHECKS["C01"] = (
     "stored keys used to read back docnum order. Regex queries only via glob translation; not arbitrary regexes.",
     "TLA+ denotational spec evaluated by TLC as oracle over recorded searches (code->spec)")
 
+CHECKS["C05"] = (
+    "model_checking",
+    "QuerySem!TopK (score desc, docnum asc over Denote) is evaluated by TLC for every recorded limited search; "
+    "real indexes use posting blocks of 1..3 entries, several segments and deletions so that block skipping and "
+    "matcher replacement engage (counted in the evidence); documents, scores and order must equal the spec's.",
+    "DESIGN.md 4.5, 5 (C05)",
+    "Exact regime only (scoring.Frequency, dyadic boosts) so that scores compare with ==; other weightings are "
+    "covered by C12's bound checks, not here. Trusted: TLC, harness/world.py concretisation.",
+    "TLA+ spec of the exhaustive ranking as oracle, judged by TLC over recorded limited searches")
+CHECKS["C09"] = (
+    "model_checking",
+    "QuerySem!Denote gives each hit's score as the documented composition (sum over matching clauses, max for "
+    "DisjunctionMax, first operand for Require/AndNot, first plus second for AndMaybe, constants, boosts incl. "
+    "document boosts); TLC judges the scores of recorded unlimited searches on multi-segment indexes.",
+    "DESIGN.md 5 (C09)",
+    "Exact regime (scoring.Frequency): decides the *composition*, not the float formula of BM25F/PL2/DFree "
+    "(numeric accuracy is outside this family). Scores of Not/phrase/multi-term clauses in scoring position are "
+    "not asserted (the documentation does not fix them).",
+    "TLA+ denotational score semantics evaluated by TLC over recorded searches")
+
 NOT_YET = {}
 
 
